@@ -618,6 +618,18 @@ func flowOne(p *Program, fn *ssa.Function, site *ssa.Call, e ssa.Value, cfg errF
 				}
 			case *ssa.If:
 				t, f := condEffect(x.Cond, A, st, cfg)
+				// a boolean result of the same call that the callee only ever sets together with a nil error
+				// (`opcode, n, chunkEnded, err := l.readRecordPrefix(); if chunkEnded { continue }`): on its true side the
+				// error is known nil
+				if st == stU {
+					if ex, ok := x.Cond.(*ssa.Extract); ok && ex.Tuple == ssa.Value(site) {
+						if g := site.Call.StaticCallee(); g != nil {
+							if ei, has := sigReturnsError(g.Signature); has && boolImpliesNilErr(p, g, ex.Index, ei, 3) {
+								t = stZ
+							}
+						}
+					}
+				}
 				push(it.b.Succs[0], t)
 				push(it.b.Succs[1], f)
 				stop = true
@@ -886,4 +898,38 @@ func repositioningCall(ci ssa.CallInstruction) bool {
 		return true
 	}
 	return calleeRepoName(ci) == "mcap.indexedMessageIterator.seekTo"
+}
+
+// boolImpliesNilErr: every return of g that sets result bIdx to something other than the constant false carries a nil
+// error result - directly, or because both values are results of one call to a package function with the same property.
+func boolImpliesNilErr(p *Program, g *ssa.Function, bIdx, errIdx int, depth int) bool {
+	if g == nil || g.Blocks == nil || depth <= 0 || !p.isRepoFunc(g) {
+		return false
+	}
+	found := false
+	for _, in := range instrsOf(g) {
+		ret, ok := in.(*ssa.Return)
+		if !ok || bIdx >= len(ret.Results) || errIdx >= len(ret.Results) {
+			continue
+		}
+		found = true
+		bv, ev := ret.Results[bIdx], ret.Results[errIdx]
+		if isNilConst(ev) {
+			continue
+		}
+		if c, ok := bv.(*ssa.Const); ok && c.Value != nil && c.Value.ExactString() == "false" {
+			continue
+		}
+		bx, ok1 := bv.(*ssa.Extract)
+		exx, ok2 := ev.(*ssa.Extract)
+		if ok1 && ok2 && bx.Tuple == exx.Tuple {
+			if call, ok := bx.Tuple.(*ssa.Call); ok {
+				if boolImpliesNilErr(p, call.Call.StaticCallee(), bx.Index, exx.Index, depth-1) {
+					continue
+				}
+			}
+		}
+		return false
+	}
+	return found
 }
